@@ -125,7 +125,7 @@ func buildArch1(dir string, names []string, prot map[string][]byte, nvols int, b
 	}()
 	snapBefore, _ := sandbox.Take(dir)
 	if err := par1.Create(index, paths, par1.CreateOptions{NumParityFiles: nvols}); err != nil {
-		return nil, fmt.Errorf("par1.Create: %v", err)
+		return nil, &createRefused{err}
 	}
 	snapAfter, _ := sandbox.Take(dir)
 	os.Remove(filepath.Join(dir, "bystander.txt"))
